@@ -213,7 +213,11 @@ theorem runScenario_placementA (e : Env) (wf : WF e) (tr : Tree e) :
     rw [boundSlot_congr e (scheduleScenario e (prepare e (initState e))) _ t
       (fun dp _ => ⟨(hsd dp.target).1, (hsd dp.target).2.1⟩)] at hbi
     rw [finishScenario_led] at hL ⊢
-    exact hfit L m0 hm0 hL i hbi hiL hall
+    rcases hfit L m0 hm0 hL i hbi hiL hall with h1 | h1 | h1
+    · exact Or.inl h1
+    · exact Or.inr (Or.inl h1)
+    · exact Or.inr (Or.inr (teamTight_closed_step (fun lid ro hr =>
+        closed_finishScenario (tight_closed e lid i ro _) _ hr) h1))
   · intro t r1 r2 hel hdone hfw
     unfold runScenario at hdone hfw
     rw [finishScenario_leafT e _ t hel.el.leaf] at hdone hfw
